@@ -61,12 +61,17 @@ func runOne(w *lib.Writer, seed uint64, idx int, mode string) {
 	for k, v := range g.Uses {
 		uses[k] += v
 	}
+	coq := fmt.Sprintf("CProg %s %s", luagen.CoqBlock(prog), out.Coq())
+	if out.GoFail != "" {
+		// a hang/escaped panic is a failure by itself; keep the shard cheap
+		coq = "CProg [] (Outcome [] (OOk []))"
+	}
 	c := lib.Case{
 		Input:      input{Src: src, Seed: seed, Idx: idx, Mode: mode},
 		Observed:   out.Summary(),
 		Class:      mode,
 		Nontrivial: len(out.Trace) >= 5 || !out.Ok,
-		Coq:        fmt.Sprintf("CProg %s %s", luagen.CoqBlock(prog), out.Coq()),
+		Coq:        coq,
 	}
 	id := w.Add(c)
 	if out.GoFail != "" {
